@@ -68,12 +68,12 @@ def clean_composite_curve_ends(
     if np.all(np.isclose(x_vals, 0.0, atol=tol)):
         return np.array([]), np.array([])
     
-    mask_0 = ~np.isclose(x_vals, x_vals[0] * np.ones(len(x_vals)), atol=tol)
+    mask_0 = ~np.isclose(x_vals, x_vals[0] * np.ones(len(x_vals)), rtol=0.0, atol=tol)
     if not mask_0.any():
         # flat: every value equals the first one
         return np.array([]), np.array([])
     start = np.flatnonzero(mask_0)[0] - 1
-    mask_1 = ~np.isclose(x_vals, x_vals[-1] * np.ones(len(x_vals)), atol=tol)
+    mask_1 = ~np.isclose(x_vals, x_vals[-1] * np.ones(len(x_vals)), rtol=0.0, atol=tol)
     end = np.flatnonzero(mask_1)[-1] + 1
 
     x_clean = x_vals[start:end+1]
